@@ -168,3 +168,26 @@ void h_getTemplate(void)
   IORA_CANARY("h_getTemplate: returns");
   if (ok) { IORA_CANARY("h_getTemplate: found"); } else { IORA_CANARY("h_getTemplate: nullopt"); }
 }
+
+/* ------------------------------------------------------------------------------------------------------------------------------
+ * the read loop of readFile (POSIX branch, after the open): the content handed back is exactly the byte stream of the opened file
+ * descriptor - for ANY pattern of short reads and EINTR interruptions; any other error gives nullopt (never partial content). */
+bool Assets_readFile_loop_contract(int fd, iora_fstr *iora_ret)
+__CPROVER_requires(IORA_TRUE && __CPROVER_is_fresh(iora_ret, sizeof(*iora_ret)))
+__CPROVER_requires(G_file_pos == 0 && G_chunk_n == 0 && G_read_calls == 0 && !G_eintr_seen && !G_short_seen)
+__CPROVER_assigns(*iora_ret, G_errno, G_file_pos, G_chunk_lo, G_chunk_n, G_read_calls, G_last_read, G_eintr_seen, G_short_seen)
+/* RL1 (asserted in the append stub) every chunk is appended exactly once, at the stream position it was read from */
+/* RL2 a result is returned only at end of file and holds the whole stream [0, file_pos) */
+__CPROVER_ensures(__CPROVER_return_value ==> (G_last_read == 0 && iora_ret->n == G_file_pos))
+/* RL3 nullopt only for a read error other than EINTR */
+__CPROVER_ensures(!__CPROVER_return_value ==> (G_last_read == -1 && G_errno != EINTR))
+__CPROVER_ensures(G_read_calls >= 1)
+;
+void h_readFile_loop(void)
+{
+  int fd; iora_fstr *r;
+  bool ok = Assets_readFile_loop(fd, r);
+  IORA_CANARY("h_readFile_loop: returns");
+  if (ok && G_eintr_seen && G_short_seen && G_file_pos > 65536) { IORA_CANARY("h_readFile_loop: content after EINTR and short reads"); }
+  if (!ok && G_file_pos > 0) { IORA_CANARY("h_readFile_loop: error after partial content"); }
+}
